@@ -91,6 +91,16 @@ pub struct CCase {
     /// max_redirections of both proxies when active redirection is on (0 = default 4)
     #[serde(default)]
     pub max_redirections: u8,
+    /// the cluster starts with compression DISABLED, serves the first `enable_after` operations like that,
+    /// is emptied (DEL of every key) and is then switched to `strategy` by a SETCLUSTER with the next
+    /// epoch on the same nodes (0 = the strategy is there from the first metadata)
+    #[serde(default)]
+    pub enable_after: u8,
+    #[serde(default)]
+    pub backend_conn_num: u8,
+    /// per-message delays (virtual microseconds): sub-commands of one multi-key command complete out of order
+    #[serde(default)]
+    pub delays: Vec<u32>,
 }
 
 fn op() -> impl Strategy<Value = COp> {
@@ -110,8 +120,8 @@ fn op() -> impl Strategy<Value = COp> {
 }
 
 pub fn strategy() -> impl Strategy<Value = CCase> {
-    (prop_oneof![1 => Just(0u8), 2 => Just(1u8), 2 => Just(2u8)], prop::bool::weighted(0.3), prop::collection::vec((any::<bool>(), op()), 1..25), prop_oneof![3 => 2u8..=4, 1 => Just(255u8)])
-        .prop_map(|(strategy, active_redirection, ops, max_redirections)| CCase { strategy, active_redirection, ops, max_redirections })
+    (prop_oneof![1 => Just(0u8), 2 => Just(1u8), 2 => Just(2u8)], prop::bool::weighted(0.3), prop::collection::vec((any::<bool>(), op()), 1..25), prop_oneof![3 => 2u8..=4, 1 => Just(255u8)], prop_oneof![2 => Just(0u8), 1 => 1u8..6], 1u8..=3, prop_oneof![1 => Just(vec![]), 1 => prop::collection::vec(0u32..3000, 2..9)])
+        .prop_map(|(strategy, active_redirection, ops, max_redirections, enable_after, backend_conn_num, delays)| CCase { strategy, active_redirection, ops, max_redirections, enable_after, backend_conn_num, delays })
 }
 
 const PA: &str = "127.0.0.1:6000";
@@ -131,13 +141,13 @@ fn key(k: u8) -> Vec<u8> {
     v
 }
 
-async fn set_cluster(world: &World, proxy: &str, local: (&str, usize, usize), peer: (&str, usize, usize), cfg: &ClusterConfig) -> Result<(), Fail> {
+async fn set_cluster(world: &World, proxy: &str, local: (&str, usize, usize), peer: (&str, usize, usize), cfg: &ClusterConfig, epoch: u64) -> Result<(), Fail> {
     let sr = |a: usize, b: usize| vec![SlotRange { range_list: RangeList::new(vec![Range(a, b)]), tag: SlotRangeTag::None }];
     let mut l = HashMap::new();
     l.insert(local.0.to_string(), sr(local.1, local.2));
     let mut p = HashMap::new();
     p.insert(peer.0.to_string(), sr(peer.1, peer.2));
-    let meta = ProxyClusterMeta::new(1, ClusterMapFlags { force: false, compress: false }, ClusterName::try_from("c").expect("n"), l, p, cfg.clone());
+    let meta = ProxyClusterMeta::new(epoch, ClusterMapFlags { force: false, compress: false }, ClusterName::try_from("c").expect("n"), l, p, cfg.clone());
     let mut c = cmd(&["UMCTL", "SETCLUSTER"]);
     c.extend(meta.to_args().into_iter().map(|s| s.into_bytes()));
     let r = world.once(proxy, &c).await;
@@ -147,7 +157,7 @@ async fn set_cluster(world: &World, proxy: &str, local: (&str, usize, usize), pe
 
 async fn run(case: &CCase, obs: &mut Obs) -> Result<(), Fail> {
     let world = World::new();
-    let opts = ProxyOpts { active_redirection: case.active_redirection, max_redirections: case.max_redirections, ..ProxyOpts::default() };
+    let opts = ProxyOpts { active_redirection: case.active_redirection, max_redirections: case.max_redirections, backend_conn_num: case.backend_conn_num.max(1) as usize, ..ProxyOpts::default() };
     world.net.add_proxy(PA, &opts);
     world.net.add_proxy(PB, &opts);
     let ra = world.net.add_redis(RA, 1);
@@ -163,8 +173,35 @@ async fn run(case: &CCase, obs: &mut Obs) -> Result<(), Fail> {
     if ref_slot(&key(0)) > split || ref_slot(&key(4)) <= split {
         fail!("harness:key-placement", "key groups are not in the intended halves");
     }
-    set_cluster(&world, PA, (RA, 0, split), (PB, split + 1, 16383), &cfg).await?;
-    set_cluster(&world, PB, (RB, split + 1, 16383), (PA, 0, split), &cfg).await?;
+    if case.enable_after > 0 && case.strategy != 0 {
+        // the cluster starts without compression, serves some traffic on both nodes through both proxies,
+        // is emptied, and only then gets the strategy under test with the next epoch (same nodes)
+        let mut plain = cfg.clone();
+        plain.compression_strategy = CompressionStrategy::Disabled;
+        set_cluster(&world, PA, (RA, 0, split), (PB, split + 1, 16383), &plain, 1).await?;
+        set_cluster(&world, PB, (RB, split + 1, 16383), (PA, 0, split), &plain, 1).await?;
+        for i in 0..case.enable_after {
+            for k in [key(i % 4), key(4 + i % 4)] {
+                for via in [PA, PB] {
+                    let (r, _) = follow_moved(&world, via, &cmdb(&[b"SET", &k, b"warm-up"]), 3).await;
+                    ensure!(matches!(&r, Resp::Simple(_)), "harness:warm-up", "warm-up SET replied {}", show_resp(&r));
+                    let (r, _) = follow_moved(&world, via, &cmdb(&[b"GET", &k]), 3).await;
+                    ensure!(matches!(&r, Resp::Bulk(BulkStr::Str(v)) if v == b"warm-up"), "C20:reply-differs", "with compression disabled GET of a value written as 'warm-up' replied {}", show_resp(&r));
+                }
+                let _ = follow_moved(&world, PA, &cmdb(&[b"DEL", &k]), 3).await;
+            }
+        }
+        set_cluster(&world, PA, (RA, 0, split), (PB, split + 1, 16383), &cfg, 2).await?;
+        set_cluster(&world, PB, (RB, split + 1, 16383), (PA, 0, split), &cfg, 2).await?;
+        obs.class("strategy-enabled-after-serving-uncompressed-traffic");
+    } else {
+        set_cluster(&world, PA, (RA, 0, split), (PB, split + 1, 16383), &cfg, 1).await?;
+        set_cluster(&world, PB, (RB, split + 1, 16383), (PA, 0, split), &cfg, 1).await?;
+    }
+    if !case.delays.is_empty() {
+        world.net.gate.set_delays(case.delays.clone());
+        obs.class(format!("message-delays:backend_conn_num={}", case.backend_conn_num.max(1)));
+    }
     obs.class(format!("strategy:{}", ["disabled", "set_get_only", "allow_all"][case.strategy as usize]));
     if case.active_redirection {
         obs.class(format!("active-redirection:max_redirections={}", if case.max_redirections == 0 { "4".to_string() } else if case.max_redirections == 255 { "unlimited".to_string() } else { case.max_redirections.to_string() }));
